@@ -97,6 +97,16 @@ func init() {
 				certs = append(certs, CorpusCert{fmt.Sprintf("generated-many-san-%d", i), der, c})
 			}
 		}
+		for _, zc := range certZoo() {
+			switch zc.Class {
+			case "tld", "related-names", "name", "extension", "validity", "sigalg", "own-key":
+				certs = append(certs, CorpusCert{"generated-" + zc.File, zc.DER, zc.Cert})
+			case "ku-eku", "subject-string-type":
+				if len(zc.DER)%7 == 0 {
+					certs = append(certs, CorpusCert{"generated-" + zc.File, zc.DER, zc.Cert})
+				}
+			}
+		}
 		// every run lints a freshly parsed object: a lint that rewrites the object would otherwise leave the same
 		// trace in both runs
 		fresh := func(cc CorpusCert) *x509.Certificate {
@@ -155,6 +165,12 @@ func init() {
 					continue
 				}
 				for _, i := range singles {
+					// zoo objects: only the lints that answered something other than NA / NE in the complete run
+					if strings.HasPrefix(certs[i].File, "generated-zoo") {
+						if r := fullCert[i].a.Results[n]; r != nil && (r.Status == lint.NA || r.Status == lint.NE) {
+							continue
+						}
+					}
 					filt := zlint.LintCertificateEx(fresh(certs[i]), fr)
 					compareFiltered(out, "cert "+certs[i].File, FilterSpec{IncludeNames: []string{n}}, fullCert[i].a, fullCert[i].b, filt, cn)
 					runs++
